@@ -2133,7 +2133,12 @@ class StateEngine(object):
                         throw_exception_on_failed_match=True
                     )
                 except PathMatchFailure:
-                    variable = False
+                    """
+                    Use a unique object, which is not an instance of any JSON
+                    type, to represent the missing Variable. Using False meant
+                    that e.g. "BooleanEquals": false matched a missing Variable.
+                    """
+                    variable = object()
                     path_match_failed = True
 
                 next = choice.get("Next", True)
